@@ -40,15 +40,21 @@ structure Term where
 structure NodeRule where
   const : V := 0
   terms : List Term := []
+  /-- Horn clauses over boolean facts: the rule yields 1 when every atom of some clause is non-⊥
+  (used by the template-parameter usage analysis) -/
+  conj : List (List Nat) := []
 
 instance : Inhabited NodeRule := ⟨{}⟩
 
 def joinList (l : List V) : V := l.foldl vmax 0
 
-def NodeRule.eval (r : NodeRule) (s : Nat → V) : V :=
-  vmax r.const (joinList (r.terms.map fun t => t.fn.f (joinList (t.children.map s))))
+def clauseVal (s : Nat → V) (c : List Nat) : V := if c.all (fun a => s a != 0) then 1 else 0
 
-def NodeRule.reads (r : NodeRule) : List Nat := r.terms.flatMap (·.children)
+def NodeRule.eval (r : NodeRule) (s : Nat → V) : V :=
+  vmax (vmax r.const (joinList (r.terms.map fun t => t.fn.f (joinList (t.children.map s)))))
+    (joinList (r.conj.map (clauseVal s)))
+
+def NodeRule.reads (r : NodeRule) : List Nat := r.terms.flatMap (·.children) ++ r.conj.flatMap id
 
 /-- an analysis instance: node list, per-node rule, dependants -/
 structure Instance where
@@ -322,5 +328,93 @@ def deriveInstance (g : IR) (cx : DeriveCtx) (t : DeriveTrait) : Instance :=
   let inNodes := fun n => mark.getD n false
   { nodes := nodes, rules := mkRules g.size (ruleDerive g cx t inNodes) nodes,
     deps := genDeps g (considerEdge .deriveDefault) (fun _ => true), initWl := wl.reverse }
+
+/-! ## used template parameters, as Horn clauses over the facts "item `n` uses parameter `p`"
+
+Fact `(n, j)` (node index `n * P + j`, `P` = number of `TypeParam` items, `j` the index of the
+parameter) holds iff item `n` uses the `j`-th type parameter. -/
+
+/-- `ItemResolver` through type refs and (plain) aliases, with fuel -/
+def resolveThrough (g : IR) : Nat → Nat → Nat
+  | 0, n => n
+  | k + 1, n =>
+    let i := g.get n
+    if i.kind == .type && (i.tk == .resolvedTypeRef || i.tk == .alias) then
+      match i.inner with
+      | some t => resolveThrough g k t
+      | none => n
+    else n
+
+/-- `Type::self_template_params` -/
+def selfParams (g : IR) : Nat → Nat → List Nat
+  | 0, _ => []
+  | k + 1, n =>
+    let i := g.get n
+    match i.tk with
+    | .resolvedTypeRef => match i.inner with
+      | some t => selfParams g k t
+      | none => []
+    | .comp | .templateAlias => i.selfTparams
+    | _ => []
+
+structure TemplateSetup where
+  tps : List Nat
+  nodes : List Nat
+  inNodes : Array Bool
+
+def templateSetup (g : IR) : TemplateSetup :=
+  let wl := deriveWorklist g
+  let mark : Array Bool := wl.foldl (fun acc n => acc.setIfInBounds n true) (Array.replicate g.size false)
+  let nodes := (List.range g.size).filter fun n => mark.getD n false
+  { tps := (List.range g.size).filter fun n => (g.get n).kind == .type && (g.get n).tk == .typeParam,
+    nodes := nodes, inNodes := mark }
+
+def templateRule (g : IR) (ts : TemplateSetup) (n j : Nat) : NodeRule :=
+  let P := ts.tps.length
+  let p := ts.tps.getD j 0
+  let i := g.get n
+  let atom := fun (m k : Nat) => m * P + k
+  if i.kind == .type && i.tk == .typeParam then { const := if n == p then 1 else 0 }
+  else if i.kind == .type && i.tk == .templateInstantiation then
+    match i.tmplDef with
+    | none => {}
+    | some d =>
+      if (g.get d).allowlisted then
+        let params := selfParams g g.size d
+        let clauses := (i.tmplArgs.zip params).filterMap fun (arg, param) =>
+          let a := resolveThrough g g.size arg
+          if a == n then none else
+          match ts.tps.idxOf? param with
+          | some pj => some [atom d pj, atom a j]
+          | none => none
+        { conj := clauses }
+      else
+        { conj := (i.tmplArgs.map (resolveThrough g g.size)).filter (· != n) |>.map fun a => [atom a j] }
+  else
+    { conj := (i.edges.filter fun e => e.1 != n && considerEdge .usedTemplateParams e.2).map fun e => [atom e.1 j] }
+
+/-- the least solution of the clauses, by the same work-list engine on the pair graph -/
+def templateInstance (g : IR) : Instance × TemplateSetup :=
+  let ts := templateSetup g
+  let P := ts.tps.length
+  let pairs := ts.nodes.flatMap fun n => (List.range P).map fun j => n * P + j
+  let size := g.size * P
+  let rules := pairs.foldl (fun (acc : Array NodeRule) k => acc.setIfInBounds k (templateRule g ts (k / P) (k % P)))
+    (Array.replicate size {})
+  -- dependants: every pair read by a clause re-queues the reader
+  let deps := pairs.foldl (fun (acc : Array (List Nat)) k =>
+    (rules.getD k {}).reads.foldl (fun acc c => if c < size then acc.modify c (k :: ·) else acc) acc)
+    (Array.replicate size [])
+  ({ nodes := pairs, rules := rules, deps := deps, initWl := pairs.reverse }, ts)
+
+/-- used sets per item: `(item, [params])` for non-empty sets -/
+def templateSolve (g : IR) : List (Nat × List Nat) :=
+  let (I, ts) := templateInstance g
+  let P := ts.tps.length
+  if P = 0 then [] else
+  let sol := I.solve (g.size * P)
+  ts.nodes.filterMap fun n =>
+    let used := (List.range P).filterMap fun j => if sol.getD (n * P + j) 0 != 0 then ts.tps[j]? else none
+    if used.isEmpty then none else some (n, used)
 
 end BindgenModel.Analyses
